@@ -26,6 +26,9 @@ type SkipCase struct {
 	// SpokLink: the project's spokfile is a symbolic link to ../shared/spokfile; the project (globs,
 	// literal files, cache) is still the directory the link is in, not the one its target is in
 	SpokLink bool `json:"spok_link,omitempty"`
+	// ProjLink: every invocation reaches the project through a symbolic link to its directory
+	// (<home>/plink -> <project>), as the working directory or in --spokfile: one project, one cache, one digest
+	ProjLink bool `json:"proj_link,omitempty"`
 }
 
 // SkipStep is one invocation or edit.
@@ -53,6 +56,7 @@ func genSkip(t *rapid.T) SkipCase {
 	c := genSkipBody(t)
 	c.ProjDir = genProjDir(t)
 	c.SpokLink = rapid.IntRange(0, 3).Draw(t, "spok_link") == 0
+	c.ProjLink = rapid.IntRange(0, 3).Draw(t, "proj_link") == 0
 	return c
 }
 
@@ -68,6 +72,7 @@ func genSkipBody(t *rapid.T) SkipCase {
 		}
 	}
 	useDefault := rapid.IntRange(0, 2).Draw(t, "default") == 0
+	useClean := !useDefault && rapid.IntRange(0, 3).Draw(t, "clean") == 0
 	ns := rapid.IntRange(2, 6).Draw(t, "nsteps")
 	for i := 0; i < ns; i++ {
 		if i > 0 && rapid.IntRange(0, 2).Draw(t, "edit") == 0 {
@@ -90,6 +95,9 @@ func genSkipBody(t *rapid.T) SkipCase {
 		if useDefault {
 			st.Via = "default"
 		}
+		if useClean {
+			st.Via = "clean" // task 0 is called clean and started by `spok --clean`: still an ordinary cached task
+		}
 		c.Steps = append(c.Steps, st)
 	}
 	return c
@@ -99,6 +107,9 @@ func (c SkipCase) name(i int) string {
 	for _, st := range c.Steps {
 		if st.Via == "default" && i == 0 {
 			return "default"
+		}
+		if st.Via == "clean" && i == 0 {
+			return "clean"
 		}
 	}
 	return forceNames[i]
@@ -166,6 +177,15 @@ func execSkip(id string, s *ev.Shard, b *sandbox.Box, c SkipCase) *rp.Fail {
 		}
 		_ = b.Own()
 	}
+	via := b.Proj // the path under which spok is told about the project
+	if c.ProjLink {
+		via = filepath.Join(b.Home, "plink")
+		_ = os.Remove(via)
+		if err := os.Symlink(filepath.Base(b.Proj), via); err != nil {
+			return &rp.Fail{Sig: "harness", Msg: err.Error()}
+		}
+		_ = os.Lchown(via, 65534, 65534)
+	}
 	logPath := filepath.Join(b.Home, "run.log")
 	env := []string{"LOG=" + logPath}
 	size := c.NTasks + len(c.Deps) + 2*len(c.Steps)
@@ -228,27 +248,34 @@ func execSkip(id string, s *ev.Shard, b *sandbox.Box, c SkipCase) *rp.Fail {
 			continue
 		}
 		_ = os.Remove(logPath)
-		cwd := b.Proj
+		cwd := via
 		if st.Nested {
-			cwd = filepath.Join(b.Proj, "nested", "dir")
+			cwd = filepath.Join(via, "nested", "dir")
 		}
 		args := append([]string(nil), st.Flags...)
 		if st.Elsewhere {
 			cwd = filepath.Join(b.Home, "elsewhere")
-			args = append(args, "--spokfile", filepath.Join(b.Proj, "spokfile"))
+			args = append(args, "--spokfile", filepath.Join(via, "spokfile"))
 		}
 		switch st.Style {
 		case "rel-dot":
 			args = append(args, "--spokfile", "./spokfile")
 		case "rel-parent":
 			cwd = b.Home
-			args = append(args, "--spokfile", filepath.Base(b.Proj)+"/spokfile")
+			args = append(args, "--spokfile", filepath.Base(via)+"/spokfile")
 		}
-		if st.Via != "default" {
+		switch st.Via {
+		case "default":
+		case "clean":
+			args = append(args, "--clean")
+		default:
 			args = append(args, c.name(0))
 		}
 		r := b.Run(cwd, env, runTimeout, args...)
 		log := readLog(logPath)
+		if os.Getenv("VERIF_DEBUG") != "" {
+			fmt.Fprintf(os.Stderr, "DEBUG step %d cwd=%s args=%v\nstdout: %s\nstderr: %s\n", si, cwd, args, r.Stdout, r.Stderr)
+		}
 		desc := fmt.Sprintf("spokfile%s:\n%sstep %d of %+v: `spok %s` from %s (exit %d, log %v)", map[bool]string{true: " (a symbolic link to ../shared/spokfile)"}[c.SpokLink], src, si, c.Steps, strings.Join(args, " "), map[bool]string{true: "nested/dir", false: map[bool]string{true: "another directory with --spokfile", false: "the project root"}[st.Elsewhere]}[st.Nested], r.Exit, log)
 		if r.Exit != 0 {
 			return &rp.Fail{Sig: "valid-run-failed", Size: size, Msg: desc + ": " + sandbox.Strip(r.Stderr)}
